@@ -29,6 +29,15 @@ def check(ctx, cfg):
     r4(ctx, cfg)
     r5(ctx, cfg)
     r6(ctx, cfg)
+    r7(ctx, cfg)
+
+
+def r7(ctx, cfg):
+    """"attaching more than the sender owns fails without running the contract": the transfer that precedes the call debits the
+    sender before it credits the recipient - otherwise a contract attaching funds to a call to itself is credited first and the
+    debit of the inflated balance succeeds (the C09.R1 obligations on BankKeeper::send under C05's id)"""
+    from rules import C09
+    C09.r1(ctx, cfg, R="C05.R7")
 
 
 def r5(ctx, cfg):
